@@ -173,7 +173,7 @@ def private_copy(area, dest):
     return dest
 
 
-def props_obligations(area, props_file, root=None):
+def props_obligations(area, props_file, root=None, lock=True):
     """Re-run coqc on the property file; list theorems, which were accepted, and
     the assumptions Print Assumptions reported for each.
     Returns dict(theorems=[...], discharged=[...], axioms={thm:[...]}, ok, log, cmd)."""
@@ -181,7 +181,10 @@ def props_obligations(area, props_file, root=None):
     src = open(os.path.join(d, props_file)).read()
     thms = [(m.group(2), src.count("\n", 0, m.start()) + 1) for m in THM.finditer(src)]
     cmd = ["coqc"] + qflags(area, root) + [props_file]
-    with Lock("coq." + area + ("" if root is None else ".private")):
+    if lock:
+        with Lock("coq." + area + ("" if root is None else ".private")):
+            rc, o = sh(["timeout", "1200"] + cmd, cwd=d, timeout=1300)
+    else:
         rc, o = sh(["timeout", "1200"] + cmd, cwd=d, timeout=1300)
     res = dict(theorems=[t for t, _ in thms], cmd=" ".join(cmd), log=o[-4000:], ok=rc == 0, axioms={})
     if rc == 0:
@@ -354,6 +357,8 @@ class TieCheck:
     pid = area = props = harness = None
     coq_targets = None      # None: build the whole area; else extra .vo targets besides the props files
     extra_props = []        # [(area, props_file)]: property theorem files living in another area
+    gentie = None           # property id for checks/GenTie.py: small Go functions regenerated into
+                            # coq/Gen/GenFuns.v on every run and proved equal to the hand-written models
     shards = NCPU
     race = False
     extra_trust = []
@@ -385,6 +390,13 @@ class TieCheck:
         ok, lg = self.gen(tier)
         if not ok:
             problems.append(("generated-model", lg[-3000:]))
+        xprops = list(self.extra_props)
+        if self.gentie:
+            import GenTie
+            okg, lgg = GenTie.tie(self.gentie)
+            if not okg:
+                problems.append(("generated-model", "tie A (gotrans / bridge lemmas, see docs/Gen.md):\n" + lgg[-3000:]))
+            xprops += [x for x in GenTie.props(self.gentie) if x not in xprops]
         plist0 = self.props if isinstance(self.props, (list, tuple)) else [self.props]
         targets = None
         if self.coq_targets is not None:
@@ -402,8 +414,16 @@ class TieCheck:
             problems.append(("coq-build", lg[-3000:]))
         plist = self.props if isinstance(self.props, (list, tuple)) else [self.props]
         ob = dict(theorems=[], discharged=[], axioms={}, ok=True, cmd="", log="")
-        for pf in plist:
-            o1 = props_obligations(self.area, pf, root=proot)
+        jobs = [(self.area, pf, proot) for pf in plist]
+        for xa, xpf in xprops:
+            okx, lgx = (True, "") if xa == "Gen" else coq_build(xa, targets=[xpf[:-2] + ".vo"])
+            if not okx:
+                problems.append(("coq-build", lgx[-3000:]))
+            jobs.append((xa, xpf, None))
+        # the property files are independent of each other: re-check them in parallel
+        with cf.ThreadPoolExecutor(max_workers=min(8, max(1, len(jobs)))) as ex:
+            outs = list(ex.map(lambda j: props_obligations(j[0], j[1], root=j[2], lock=False), jobs))
+        for (ja, jpf, _), o1 in zip(jobs, outs):
             ob["theorems"] += o1["theorems"]
             ob["discharged"] += o1["discharged"]
             ob["axioms"].update(o1["axioms"])
@@ -411,24 +431,12 @@ class TieCheck:
             if not o1["ok"]:
                 ob["ok"] = False
                 ob["log"] += o1["log"]
-                problems.append(("proof-obligation", "coqc %s failed:\n%s" % (pf, o1["log"])))
-        for xa, xpf in self.extra_props:
-            okx, lgx = coq_build(xa, targets=[xpf[:-2] + ".vo"])
-            if not okx:
-                problems.append(("coq-build", lgx[-3000:]))
-            o1 = props_obligations(xa, xpf)
-            ob["theorems"] += o1["theorems"]
-            ob["discharged"] += o1["discharged"]
-            ob["axioms"].update(o1["axioms"])
-            ob["cmd"] += " ; " + o1["cmd"]
-            if not o1["ok"]:
-                ob["ok"] = False
-                problems.append(("proof-obligation", "coqc %s/%s failed:\n%s" % (xa, xpf, o1["log"])))
+                problems.append(("proof-obligation", "coqc %s/%s failed:\n%s" % (ja, jpf, o1["log"])))
         axioms = sorted({a for l in ob["axioms"].values() for a in l})
         bad_ax = [a for a in axioms if a.split(".")[-1] not in ALLOWED_AXIOMS and a not in ALLOWED_AXIOMS]
         if bad_ax:
             problems.append(("axioms", "non-standard assumptions: %s" % bad_ax))
-        hy = hygiene(sorted(set(closure_areas(self.area) + [a for xa, _ in self.extra_props for a in closure_areas(xa)])))
+        hy = hygiene(sorted(set(closure_areas(self.area) + [a for xa, _ in xprops for a in closure_areas(xa)])))
         if hy:
             problems.append(("hygiene", "\n".join(hy)))
         checker = ["make -C coq/%s (full .vo)" % self.area, ob["cmd"]]
